@@ -217,32 +217,59 @@ func (v *Version) String() string {
 	return v.original
 }
 
-// Compare compares this version with another Ruby Gem version
+// Compare compares this version with another Ruby Gem version the way Gem::Version#<=> does:
+// position by position over the canonical segments, a missing segment counting as 0 and a
+// string segment sorting below a number.
 func (v *Version) Compare(other *Version) int {
-	// First compare the numeric parts
-	vNumeric, vPrerelease := v.splitNumericAndPrerelease()
-	oNumeric, oPrerelease := other.splitNumericAndPrerelease()
+	a := canonicalSegments(v.segments)
+	b := canonicalSegments(other.segments)
 
-	// Compare numeric parts first
-	numericCmp := compareSegmentArrays(vNumeric, oNumeric)
-	if numericCmp != 0 {
-		return numericCmp
+	for i := range max(len(a), len(b)) {
+		aSeg := segment{value: "0", isNumeric: true, numValue: 0}
+		bSeg := aSeg
+		if i < len(a) {
+			aSeg = a[i]
+		}
+		if i < len(b) {
+			bSeg = b[i]
+		}
+
+		var cmp int
+		switch {
+		case aSeg.isNumeric && bSeg.isNumeric:
+			cmp = compareInt(aSeg.numValue, bSeg.numValue)
+		case aSeg.isNumeric:
+			cmp = 1 // number > string
+		case bSeg.isNumeric:
+			cmp = -1 // string < number
+		default:
+			cmp = strings.Compare(aSeg.value, bSeg.value)
+		}
+		if cmp != 0 {
+			return cmp
+		}
 	}
 
-	// If numeric parts are equal, compare prerelease parts
-	// No prerelease > prerelease
-	if len(vPrerelease) == 0 && len(oPrerelease) == 0 {
-		return 0
-	}
-	if len(vPrerelease) == 0 {
-		return 1 // release > prerelease
-	}
-	if len(oPrerelease) == 0 {
-		return -1 // prerelease < release
-	}
+	return 0
+}
 
-	// Both have prerelease, compare them
-	return compareSegmentArrays(vPrerelease, oPrerelease)
+// canonicalSegments drops the trailing zeros of the leading numeric part and of the rest.
+func canonicalSegments(segments []segment) []segment {
+	firstString := len(segments)
+	for i, seg := range segments {
+		if !seg.isNumeric {
+			firstString = i
+			break
+		}
+	}
+	trim := func(part []segment) []segment {
+		for len(part) > 0 && part[len(part)-1].isNumeric && part[len(part)-1].numValue == 0 {
+			part = part[:len(part)-1]
+		}
+		return part
+	}
+	result := append([]segment{}, trim(segments[:firstString])...)
+	return append(result, trim(segments[firstString:])...)
 }
 
 // splitNumericAndPrerelease splits version into numeric and prerelease parts
